@@ -61,8 +61,11 @@ def cfg_line(cfg):
         for (c, p, a) in at:
             if p is None:
                 pi = "N"
-            else:
+            elif p in [x[1] for x in impl.DEFAULT_AT]:
                 pi = str([x[1] for x in impl.DEFAULT_AT].index(p))
+            else:
+                from . import translate
+                pi = "X" + translate.wire_pattern(p)
             parts.append("%s:%s:%s" % (impl.hexs(c), pi, a))
         at_s = ",".join(parts) or "-"
     return "cfg %d %s %s %s %s" % (1 if cfg.get("g90e") else 0, script(cfg.get("enter")),
